@@ -89,6 +89,78 @@ CLAIMS = {
              "pairs and entity chains deeper than the library's limit (64) are outside the generated space.",
         technique="Lean 4 proof (list induction on the normalisation model) + differential correspondence + independent oracle",
         ref="DESIGN.md section 6 C11"),
+    "C05": dict(
+        text="The evaluator model is written as the Recommendation is written (axes as filters of the document-order list, node tests, "
+             "predicates with proximity positions, coercions, the core library); kernel-checked: declarative characterisations of the "
+             "axes and the Recommendation's sentence that ancestor / descendant / following / preceding / self PARTITION the document "
+             "(cover + pairwise disjoint, for every document and context node), name tests select only the principal node type, "
+             "positions count in reverse document order exactly on the reverse axes, a numeric predicate is a position test, string-value "
+             "equations. Tie: generated namespace-well-formed documents x typed expressions over the whole supported language, real "
+             "query() in the merged-text view vs the model, values compared exactly (numbers by IEEE bit pattern).",
+        note="Trusted: Lean kernel; the hand-written model XPath/{Tree,Num,Ast,Eval}.lean as a transcription of XPath 1.0 (it is the oracle), "
+             "translator for the expression grammar, harness `query`. Known findings: namespace-nodes, default-attr-order, negzero-string. "
+             "Raw (unmerged) DOM view is not compared. Initial context position/size are 0 as in the library.",
+        technique="Lean 4 proof (order theory on keys, list filters) + translator + differential correspondence against the model as oracle",
+        ref="DESIGN.md section 6 C05"),
+    "C06": dict(
+        text="Totality: the model's evaluator is accepted by Lean's termination checker (structural recursion over the expression), "
+             "returns values or typed errors only; kernel-checked: variable references and id() are errors/empty, unknown function and "
+             "arity violations are errors before evaluation, parent of the root is empty and of an attribute is its element, parser "
+             "answers do not depend on fuel, no accepted expression nests deeper than the limit read from the source. Tie: four streams "
+             "(valid, unsupported/ill-typed, garbage, single-character mutants) + 11 growth families in a worker process: no panic/"
+             "abort/timeout, same outcome class as the model, time(2n)/time(n) bounded.",
+        note="Partial by nature: running time and stack depth of the real code are measured, not proved. Trusted: Lean kernel, translator, harness.",
+        technique="Lean 4 proof (structural termination, error theorems, fuel monotonicity) + isolated-worker differential outcome classes + growth measurement",
+        ref="DESIGN.md section 6 C06"),
+    "C07": dict(
+        text="Kernel-checked for every document and expression: the list of all nodes is strictly increasing for document order (which is "
+             "a strict total order on keys), every node-set value the evaluator returns is a sub-list of it (hence duplicate-free and in "
+             "document order), union is commutative, associative and idempotent, count(A|B) <= count(A)+count(B), a positional filter on a "
+             "parenthesised node-set counts in document order. Monitor on the real results (independent of the model): strictly "
+             "increasing order keys and pre-order positions, no repeated node, the union laws and (A)[k] on generated pairs.",
+        note="Trusted: Lean kernel, harness node location (paths by id), generators. Known findings: namespace-nodes, default-attr-order.",
+        technique="Lean 4 proof (mutual induction over the tree for sortedness; list lemmas) + monitor on implementation outputs + differential correspondence",
+        ref="DESIGN.md section 6 C07"),
+    "C08": dict(
+        text="Kernel-checked: '.' is self::node(), '..' is parent::node(), '//' inserts descendant-or-self::node(), [n] keeps exactly the "
+             "nodes [position()=n] keeps for EVERY number n (via symmetry of IEEE equality on bit patterns), an accepted expression is a "
+             "derivation of the layered grammar generated from the source that spells the whole input. The completeness direction (every "
+             "spelling parses to the same AST) is stated and not proved (partial); it is covered by the tie: every generated AST in 6 "
+             "spellings must give one result on the real code, equal to the model's, plus fixed precedence/associativity/node-type cases.",
+        note="Partial proof (see text). Trusted: Lean kernel, translator, the abstraction CST->AST (Ast.lean), spelling generator.",
+        technique="Lean 4 proof (partial) + translator + metamorphic differential correspondence over spellings",
+        ref="DESIGN.md section 6 C08"),
+    "C09": dict(
+        text="Numbers are modelled as IEEE binary64 BIT PATTERNS with exact natural-number arithmetic (no Float): all functions reduce in "
+             "the kernel. Kernel-checked for all arguments: substring selects exactly the characters whose position lies in the rounded "
+             "window (IEEE comparisons, so NaN/infinities/out-of-range are covered) and is a subsequence of its argument, translate, "
+             "starts-with, contains, substring-before/after specifications, string-length counts characters, special values of round/"
+             "floor/ceiling/string(), integral arguments unchanged, number() is NaN outside the XPath lexical form. Tie: complete arity "
+             "table 0..5, full products over a pool of 23 strings x 23 numbers x booleans for unary/binary functions, arithmetic and "
+             "comparisons, substring triples, the Recommendation's examples; numbers compared by bit pattern.",
+        note="Round-to-nearest-even of the soft arithmetic itself is validated by the tie (every pool operation must agree bit-for-bit with "
+             "the hardware result of the running code), not proved. Known finding negzero-string (pinned by the suite).",
+        technique="Lean 4 proof (list induction; kernel evaluation of exact arithmetic) + exhaustive pool differential correspondence",
+        ref="DESIGN.md section 6 C09"),
+    "C10": dict(
+        text="Kernel-checked: in-scope namespaces (own declaration wins, inheritance, shadowing, xmlns=\"\" undeclares, xml stays bound), "
+             "the default namespace applies to unprefixed elements and never to attributes, and a name test depends ONLY on node kind, "
+             "expanded name and the URI the caller bound to the prefix — so consistent renamings of prefixes cannot change a result. "
+             "Tie/monitor: random declaration layouts x a battery of name tests and namespace-uri/local-name/name queries vs the model, "
+             "and the same queries after renaming the document's prefixes, and after renaming the expression's prefixes with the bindings.",
+        note="Trusted: Lean kernel, model Tree.lean (scope computation), generators. Known finding namespace-nodes (namespace axis).",
+        technique="Lean 4 proof (list lemmas on scope computation, congruence of the node test) + metamorphic differential correspondence",
+        ref="DESIGN.md section 6 C10"),
+    "C19": dict(
+        text="In the model parsing, tree building and evaluation are functions of their arguments and the context of a predicate is passed "
+             "down, never returned; kernel-checked in the property's terms: each query of a series answers as alone (also after failing "
+             "ones), operands share the caller's context, a predicate cannot change its caller's position/size, parse is deterministic. "
+             "Tie: sequences of 3-9 queries incl. failures at top level and inside predicates on ONE real context vs fresh contexts, "
+             "serialization unchanged by querying, every text parsed and printed twice.",
+        note="The theorems are largely by construction (a Lean function has no hidden state); the content is that the code behaves like such a "
+             "function, which only the tie can show. Trusted: Lean kernel, harness `query`/`qfresh`.",
+        technique="Lean 4 proof (functional model) + differential correspondence re-used vs fresh context",
+        ref="DESIGN.md section 6 C19"),
 }
 
 PENDING_REASON = "check not built yet (work in progress; see DESIGN.md section 10 build order)"
